@@ -160,7 +160,11 @@ def c04_3(ctx):
         node = sym.expanded(ctx, g)
         loops = [n for n in ast.walk(node) if isinstance(n, (ast.For, ast.While)) and "get_opcode" in norm(n.iter if isinstance(n, ast.For) else n.test) + " ".join(norm(x) for st in n.body for x in ast.walk(st) if isinstance(x, ast.Call))]
         if not loops:
-            ctx.undecided("delete-every-occurrence:%s" % nm.split(".")[-1], ctx.where(g), "%s: no loop over the script's instructions found" % nm)
+            raw = [c for c in ast.walk(node) if isinstance(c, ast.Call) and isinstance(c.func, ast.Attribute) and c.func.attr in ("replace", "split", "partition", "find", "index")]
+            if raw:
+                ctx.bad("delete-aligned-to-instructions:%s" % nm.split(".")[-1], ctx.where(g, raw[0]), "%s removes the pattern with `%s` on the raw bytes: FindAndDelete compares whole INSTRUCTIONS, so an occurrence that straddles an instruction boundary (inside another push's payload) must stay; the script code that is hashed differs from consensus" % (nm, norm(raw[0])[:60]))
+            else:
+                ctx.undecided("delete-every-occurrence:%s" % nm.split(".")[-1], ctx.where(g), "%s: no loop over the script's instructions found" % nm)
         for lp in loops:
             inner = {id(y) for x in ast.walk(lp) if isinstance(x, (ast.For, ast.While)) and x is not lp for y in ast.walk(x)}
             outs = [x for st in lp.body for x in ast.walk(st) if isinstance(x, (ast.Break, ast.Return)) and id(x) not in inner]
